@@ -1,14 +1,19 @@
 (* C35 — specification and proofs about Model.C35 (one connection to the inter-node port). *)
-From Coq Require Import List String Bool NArith Arith Lia ZifyBool ZifyNat ZifyN.
+From Coq Require Import List String Bool NArith ZArith Arith Lia ZifyBool ZifyNat ZifyN.
 From RQ Require Import Lib.AList Model.C19 Model.C18 Model.C35 Proofs.C19 Proofs.C18.
 Import ListNotations.
 Open Scope N_scope.
 
+(* dispatch is total: whatever integer arrives as the command type, there is a term for it *)
+Lemma type_name_term (t : Z) : term_of (type_name t) <> None.
+Proof.
+  destruct t as [|p|p]; [discriminate | | discriminate].
+  do 4 (destruct p as [p|p|]; try discriminate).
+Qed.
+
 Section Conn.
   Variable decode : list N -> option command.
   Variable st : option cstore.
-  (* the decoder names command types of the proto enum (or "unknown-type"): each has a term *)
-  Hypothesis decode_known : forall p c, decode p = Some c -> term_of (cm_type c) <> None.
 
   Lemma finish_end r e : r_end (finish r e) = e. Proof. reflexivity. Qed.
 
@@ -23,10 +28,10 @@ Section Conn.
     destruct (max_command_size <? _); [reflexivity|].
     destruct (N.of_nat _ <? _); [reflexivity|].
     destruct (decode _) as [c|] eqn:Hd; [|reflexivity].
-    unfold handle. destruct (term_of (cm_type c)) as [h|] eqn:Ht.
+    unfold handle. destruct (term_of (type_name (cm_type c))) as [h|] eqn:Ht.
     - rewrite (handlers_never_crash _ h _ _ _ Ht).
       apply IH. rewrite !skipn_length. lia.
-    - exfalso. exact (decode_known _ _ Hd Ht).
+    - exfalso. exact (type_name_term _ Ht).
   Qed.
 
   Theorem no_crash input : r_end (mux_serve decode st input) = EClosed.
@@ -41,7 +46,6 @@ Section Conn.
     r_alloc r <= B -> 2 * N.of_nat (List.length input) + 520 <= B ->
     r_alloc (serve decode st fuel input r) <= B.
   Proof.
-    clear decode_known.
     induction fuel as [|fuel IH]; intros input r Hr Hb; [exact Hr|].
     cbn [serve].
     destruct (Nat.ltb (List.length input) header_size) eqn:Hl; [exact Hr|].
@@ -63,7 +67,6 @@ Section Conn.
   Theorem alloc_bounded input :
     r_alloc (mux_serve decode st input) <= 2 * N.of_nat (List.length input) + 520.
   Proof.
-    clear decode_known.
     unfold mux_serve. destruct input as [|hd rest]; [cbn; lia|].
     destruct (hd =? mux_cluster_header); [|cbn [res0 r_alloc]; lia].
     apply serve_alloc; cbn [res0 r_alloc List.length]; lia.
@@ -72,22 +75,21 @@ Section Conn.
   (* ---- state changes only with permission ---- *)
   Definition permitted (x : string * command) : Prop :=
     let '(name, c) := x in
-    meta_call name = false -> cm_type c <> hwm ->
-    exists g, required (cm_type c) = Some g /\
+    meta_call name = false -> type_name (cm_type c) <> hwm ->
+    exists g, required (type_name (cm_type c)) = Some g /\
               holds (authz st (cm_user c) (cm_pass c)) (cm_voter c) g = true.
 
   Lemma serve_permitted fuel : forall input r,
     (forall x, In x (r_calls r) -> permitted x) ->
     forall x, In x (r_calls (serve decode st fuel input r)) -> permitted x.
   Proof.
-    clear decode_known.
     induction fuel as [|fuel IH]; intros input r Hr; [exact Hr|].
     cbn [serve].
     destruct (Nat.ltb _ _); [exact Hr|].
     destruct (max_command_size <? _); [exact Hr|].
     destruct (N.of_nat _ <? _); [exact Hr|].
     destruct (decode _) as [c|]; [|exact Hr].
-    unfold handle. destruct (term_of (cm_type c)) as [h|] eqn:Ht; [|exact Hr].
+    unfold handle. destruct (term_of (type_name (cm_type c))) as [h|] eqn:Ht; [|exact Hr].
     set (hs := run _ _ _ h).
     assert (Hab : forall x, In x (r_calls (absorb (bump (bump r 8) (8 + buf_cap (le64 (firstn header_size input)))) c hs)) -> permitted x).
     { intros x Hin. cbn [absorb bump r_calls] in Hin. apply in_app_or in Hin as [Hin|Hin]; [now apply Hr|].
@@ -97,17 +99,16 @@ Section Conn.
       { unfold sensitive. apply orb_true_iff. left. apply existsb_exists. exists name.
         split; [exact Hname | now rewrite Hm]. }
       pose proof (enforced_partial _ h _ _ _ _ Ht Hn Hs) as He.
-      destruct (required (cm_type c)) as [g|]; [|contradiction]. now exists g. }
+      destruct (required (type_name (cm_type c))) as [g|]; [|contradiction]. now exists g. }
     destruct (s_crash hs); [exact Hab|]. now apply IH.
   Qed.
 
   Theorem no_state_change_without_perm_partial input name c :
     In (name, c) (r_calls (mux_serve decode st input)) ->
-    meta_call name = false -> cm_type c <> hwm ->
-    exists g, required (cm_type c) = Some g /\
+    meta_call name = false -> type_name (cm_type c) <> hwm ->
+    exists g, required (type_name (cm_type c)) = Some g /\
               holds (authz st (cm_user c) (cm_pass c)) (cm_voter c) g = true.
   Proof.
-    clear decode_known.
     intros Hin. unfold mux_serve in Hin. destruct input as [|hd rest]; [contradiction|].
     destruct (hd =? mux_cluster_header); [|contradiction].
     refine (serve_permitted _ _ res0 _ _ Hin). intros x [].
@@ -118,7 +119,6 @@ Section Conn.
     (8 <= List.length input)%nat -> max_command_size < le64 (firstn header_size input) ->
     serve decode st (S fuel) input r = finish (bump r 8) EClosed.
   Proof.
-    clear decode_known.
     intros Hl Hsz. cbn [serve].
     destruct (Nat.ltb _ _) eqn:E; [apply Nat.ltb_lt in E; unfold header_size in E; lia|].
     apply N.ltb_lt in Hsz. rewrite Hsz. reflexivity.
@@ -129,7 +129,6 @@ Section Conn.
     let r := mux_serve decode st (mux_cluster_header :: hdr ++ tail) in
     r_calls r = [] /\ r_out r = [] /\ r_alloc r = 8 /\ r_end r = EClosed.
   Proof.
-    clear decode_known.
     intros Hl Hsz. cbn [mux_serve]. rewrite N.eqb_refl. rewrite serve_oversize.
     - cbn. auto.
     - rewrite app_length. lia.
@@ -140,7 +139,7 @@ End Conn.
 
 (* The statement at full strength fails: under a store that grants nothing to anybody, nine bytes
    make the node act on a high-water-mark update (given a decoder that reads them as one). *)
-Definition hwm_cmd := {| cm_type := hwm; cm_nil := false; cm_voter := false; cm_user := ""; cm_pass := "" |}.
+Definition hwm_cmd := {| cm_type := 13%Z; cm_nil := false; cm_voter := false; cm_user := ""; cm_pass := "" |}.
 Theorem state_change_refuted :
   exists decode input,
     (forall u p perm, authz (Some (load [])) u p perm = false) /\
@@ -152,7 +151,7 @@ Proof.
 Qed.
 
 (* ---- non-vacuity: two frames on one connection; the second is cut short ---- *)
-Example ex_cmd := {| cm_type := "COMMAND_TYPE_EXECUTE"; cm_nil := false; cm_voter := false; cm_user := "u1"; cm_pass := "pw1" |}.
+Example ex_cmd := {| cm_type := 2%Z; cm_nil := false; cm_voter := false; cm_user := "u1"; cm_pass := "pw1" |}.
 Example ex_dec (p : list N) : option command :=
   match p with [7] => Some ex_cmd | [9] => Some hwm_cmd | _ => None end.
 Example ex_store := Some (load [ {| username := "u1"; password := "pw1"; perms := ["execute"%string] |} ]).
@@ -160,9 +159,10 @@ Example ex_run :
   let r := mux_serve ex_dec ex_store [2; 1;0;0;0;0;0;0;0; 7;  255;255;255;127;0;0;0;0; 1; 2] in
   map fst (r_calls r) = ["Execute"%string] /\ r_out r = [OFrame ""] /\ r_end r = EClosed /\ r_alloc r = 8 + 2 * 2 + 512.
 Proof. vm_compute. auto. Qed.
-Example ex_decode_known : forall p c, ex_dec p = Some c -> term_of (cm_type c) <> None.
-Proof.
-  intros p c H. unfold ex_dec in H.
-  repeat match type of H with context [match ?x with _ => _ end] => destruct x; try discriminate end;
-  injection H as <-; discriminate.
-Qed.
+(* a type outside the enum — negative — is a command nobody handles: nothing called, nothing written, the loop goes on *)
+Example ex_negative_type :
+  let neg := {| cm_type := (-1)%Z; cm_nil := true; cm_voter := false; cm_user := ""; cm_pass := "" |} in
+  let dec (p : list N) := match p with [7] => Some ex_cmd | _ => Some neg end in
+  let r := mux_serve dec ex_store [2; 6;0;0;0;0;0;0;0; 8;255;255;255;255;15;  1;0;0;0;0;0;0;0; 7] in
+  map fst (r_calls r) = ["Execute"%string] /\ r_out r = [OFrame ""] /\ r_end r = EClosed.
+Proof. vm_compute. auto. Qed.
